@@ -85,7 +85,7 @@ def decl_consts(d):
     out = []
     dflt = d["default"]
     if dflt and dflt["form"] == "const":
-        out.append(("C_%s" % d["name"].upper(), dflt["value"]))
+        out.append((dflt.get("const_name") or "C_%s" % d["name"].upper(), dflt["value"]))
     out.extend(d.get("extra_consts", []))
     return out
 
